@@ -35,6 +35,10 @@ pub struct Case {
     pub retention: u16,
     pub ops: u8,
     pub topic: u8,
+    /// the publisher pipelines two 16 KiB items with feed() right after each cut, so the
+    /// loss is first noticed in poll_ready (write buffer over its back-pressure boundary)
+    #[serde(default)]
+    pub big_feed: bool,
 }
 
 async fn wait_until(dl: Duration, mut f: impl FnMut() -> bool) -> bool {
@@ -168,7 +172,25 @@ async fn run_inner(certs: &Certs, c: &Case) -> Outcome {
                 let mut res = Ok(());
                 let dl = Instant::now() + Duration::from_secs(20);
                 let mut anchored: Option<Vec<u8>> = None;
+                if c.big_feed {
+                    let mut failed = None;
+                    for _ in 0..2 {
+                        seq += 1;
+                        let big = format!("o{oi}-{seq}-{}", "x".repeat(16 * 1024));
+                        match tokio::time::timeout(Duration::from_secs(20), p.feed(big)).await {
+                            Err(_) => { failed = Some(HANG.to_string()); break; }
+                            Ok(Err(e)) => { failed = Some(e.to_string()); break; }
+                            Ok(Ok(())) => {}
+                        }
+                    }
+                    if let Some(e) = failed {
+                        res = Err(e);
+                    }
+                }
                 loop {
+                    if res.is_err() {
+                        break;
+                    }
                     if Instant::now() > dl {
                         res = Err(HANG.into());
                         break;
@@ -324,6 +346,7 @@ async fn run_inner(certs: &Certs, c: &Case) -> Outcome {
     if exhausted { labels.push("exhausted"); }
     if fatal_seen { labels.push("unrecoverable-answer"); }
     if m == 0 { labels.push("max-attempts-0"); }
+    if c.big_feed && kind == 0 { labels.push("publisher-pipelined-16KiB-after-cut"); }
     Outcome::pass(labels, survived >= 2 || any_failing_attempt || exhausted)
 }
 
@@ -335,8 +358,8 @@ pub fn strategy() -> BoxedStrategy<Case> {
         // many clean outages in a row: distinguishes a per-outage from a lifetime budget
         2 => proptest::collection::vec(outage_ok, 3..7),
     ];
-    (0u8..4, prop_oneof![1 => Just(0u8), 6 => 1u8..5], 0u8..3, 0u8..5, proptest::option::of(0u8..8), outages, any::<u16>(), 0u8..4, 0u8..3)
-        .prop_map(|(kind, max_attempts, backoff, step_ms, cap_ms, outages, retention, ops, topic)| Case { kind, max_attempts, backoff, step_ms, cap_ms, outages, retention, ops, topic })
+    (0u8..4, prop_oneof![1 => Just(0u8), 6 => 1u8..5], 0u8..3, 0u8..5, proptest::option::of(0u8..8), outages, any::<u16>(), 0u8..4, 0u8..3, prop::bool::weighted(0.3))
+        .prop_map(|(kind, max_attempts, backoff, step_ms, cap_ms, outages, retention, ops, topic, big_feed)| Case { kind, max_attempts, backoff, step_ms, cap_ms, outages, retention, ops, topic, big_feed })
         .boxed()
 }
 
@@ -369,5 +392,5 @@ pub fn replay(id: &str, case: &serde_json::Value) -> i32 {
             return 2;
         }
     };
-    crate::core::replay_case::<Case>(id, case, 3, |c| env.rt.block_on(run_case(&env.certs, c)))
+    crate::core::replay_case::<Case>(id, case, 3, |c| match crate::core::catch(|| env.rt.block_on(run_case(&env.certs, c))) { Ok(o) => o, Err(p) => Outcome::fail(format!("panic:{}", crate::core::panics::normalise(&p)), format!("panicked: {p}")) })
 }
